@@ -9,7 +9,9 @@ package dastard
 
 import (
 	"encoding/binary"
+	"encoding/hex"
 	"fmt"
+	"hash/fnv"
 	"math"
 	"testing"
 	"time"
@@ -186,6 +188,21 @@ func v14Samples(pattern, n int) []RawType {
 	return d
 }
 
+// v14Outcome is a printable canonical form of a message: header in hex, payload length and hash.
+func v14Outcome(frames [][]byte) string {
+	s := ""
+	for i, f := range frames {
+		if i == 0 {
+			s += hex.EncodeToString(f)
+			continue
+		}
+		h := fnv.New64a()
+		h.Write(f)
+		s += fmt.Sprintf("|%d:%016x", len(f), h.Sum64())
+	}
+	return s
+}
+
 func v14Same32(got, want float32) bool {
 	if want != want {
 		return got != got
@@ -209,12 +226,8 @@ func v14CheckRecord(x *vexp.X, rec *DataRecord, wantNs int64) vexp.Result {
 	orig := append([]RawType{}, rec.data...)
 	frames := messageRecords(rec)
 	x.Steps = 1
-	var oc []byte
-	for _, f := range frames {
-		oc = append(oc, f...)
-		oc = append(oc, '|')
-	}
-	res := vexp.Result{Nontrivial: len(rec.data) > 0, Outcome: string(oc)}
+	oc := v14Outcome(frames)
+	res := vexp.Result{Nontrivial: len(rec.data) > 0, Outcome: oc}
 	desc := fmt.Sprintf("record{ch=%d signed=%v npre=%d len=%d period=%v(%#08x) voltsPerArb=%v(%#08x) time=%v frame=%d}", rec.channelIndex, rec.signed, rec.presamples,
 		len(rec.data), rec.sampPeriod, math.Float32bits(rec.sampPeriod), rec.voltsPerArb, math.Float32bits(rec.voltsPerArb), rec.trigTime.Format(time.RFC3339Nano), rec.trigFrame)
 	bad := func(class, f string, a ...interface{}) vexp.Result {
@@ -275,12 +288,8 @@ func v14CheckSummary(x *vexp.X, rec *DataRecord, wantNs int64) vexp.Result {
 	origCoefs := append([]float64{}, rec.modelCoefs...)
 	frames := messageSummaries(rec)
 	x.Steps = 1
-	var oc []byte
-	for _, f := range frames {
-		oc = append(oc, f...)
-		oc = append(oc, '|')
-	}
-	res := vexp.Result{Nontrivial: len(rec.data) > 0 || len(rec.modelCoefs) > 0, Outcome: string(oc)}
+	oc := v14Outcome(frames)
+	res := vexp.Result{Nontrivial: len(rec.data) > 0 || len(rec.modelCoefs) > 0, Outcome: oc}
 	desc := fmt.Sprintf("summary{ch=%d npre=%d len=%d ptMean=%v peak=%v rms=%v avg=%v resid=%v time=%v frame=%d ncoef=%d}", rec.channelIndex, rec.presamples, len(rec.data),
 		rec.pretrigMean, rec.peakValue, rec.pulseRMS, rec.pulseAverage, rec.residualStdDev, rec.trigTime.Format(time.RFC3339Nano), rec.trigFrame, len(rec.modelCoefs))
 	bad := func(class, f string, a ...interface{}) vexp.Result {
